@@ -34,7 +34,9 @@
 EXTENDS Integers, Sequences, FiniteSets, TLC, Json
 
 CONSTANTS MaxClock,   \* clock bound (ticks)
-          MaxStep,    \* largest single Tick
+          MaxStep,    \* largest ordinary Tick
+          BigSteps,   \* outage-sized Ticks (in Tick units of 10 s): gaps of > 24 and > 100 intervals between executions
+          Enabled,    \* names of the commands a history may contain (generation families)
           MaxCmds,    \* commands per history
           Points,     \* instants usable as explicit manual bounds (odd numbers)
           Weight,     \* generation bias for -simulate: Tick and Sched each appear Weight times among the
@@ -122,9 +124,12 @@ Restart == /\ CanCmd
 
 Done == ~CanCmd /\ UNCHANGED vars
 
-Next == \/ \E d \in 1..MaxStep, w \in 1..Weight : Tick(d, w)
-        \/ Sched \/ ManualDefault \/ ManualDry \/ ManualRange \/ ManualStart \/ ManualEnd
-        \/ SetFault \/ UpdToggle \/ UpdQuery \/ Restart \/ Done
+On(n) == n \in Enabled
+Next == \/ (On("tick") /\ \E d \in (1..MaxStep) \cup BigSteps, w \in 1..Weight : Tick(d, w))
+        \/ (On("sched") /\ Sched) \/ (On("manual") /\ ManualDefault) \/ (On("dry") /\ ManualDry)
+        \/ (On("range") /\ ManualRange) \/ (On("from") /\ ManualStart) \/ (On("until") /\ ManualEnd)
+        \/ (On("fault") /\ SetFault) \/ (On("update") /\ (UpdToggle \/ UpdQuery)) \/ (On("restart") /\ Restart)
+        \/ Done
 
 Spec == Init /\ [][Next]_vars
 
